@@ -73,7 +73,10 @@ Inductive kind :=
 | KSLoop (n_iter_max : nat) (cb_stop_at : option nat) (n_reported : nat)
 (* the two hypotheses of C06_hooi_error_identity validated on the decomposition an (unmasked) HOOI run returns: every factor has
    orthonormal columns and the core is X x_k U_k^T (both up to rounding) *)
-| KHooiHyp (X G : tensor F) (fs : list (tensor F)).
+| KHooiHyp (X G : tensor F) (fs : list (tensor F))
+(* event-level trace of a parafac2 run without convergence stop: 5 = _compute_projections, 10 = inner ALS update, 2 = error computation,
+   1 = cp_normalize, in the order observed, against the instrumented loop model p2_loop_tr *)
+| KP2Events (ls normalize : bool) (n_iter_max : nat) (observed : list nat).
 
 (* canonical form of an event list, applied to BOTH sides: what matters for "which iterate does an error belong to" is the order of
    the block updates, the kind and position of the error computations and the callbacks.  A normalisation is kept only where it
@@ -165,6 +168,7 @@ Definition agree_kind (k : kind) : bool :=
       && forallb (fun r => qclose atol rtol (toQ (out N 0%nat r)) (toQ (st' N 0%nat r))) (seq 0 R)
   | KErrCalcFull X R w fs card mask M rep => rel_close (error_calc_model Op X R w fs card mask M) rep
   | KSLoop n stop_at n_rep => Nat.eqb (s_loop_count n stop_at) n_rep
+  | KP2Events ls nrm n observed => nat_list_eqb (p2_events ls nrm n) observed
   | KHooiHyp X G fs =>
       let s := shape X in let rs := shape G in let us := matsT Op fs in
       Nat.eqb (length fs) (length s) && Nat.eqb (length rs) (length s) &&
